@@ -114,6 +114,7 @@ pub fn replay(args: &Args) {
             "diff" => diff(&mut rep, v),
             "months" => months(&mut rep, v),
             "group" => group(&mut rep, v),
+            "nat" => nat_dur(&mut rep, v),
             "trunc" => trunc(&mut rep, v),
             "tod" => tod(&mut rep, v),
             _ => {},
@@ -316,6 +317,26 @@ fn group(rep: &mut Report, v: &Value) {
         Ok(())
     });
     judge(rep, "timedelta ops", "timedelta ops", &key, "TimeDelta", r, v);
+    nat_dur(rep, v);
+}
+
+/// NaT absorbs every duration, also one with a calendar part (which a VALID time of day refuses)
+fn nat_dur(rep: &mut Report, v: &Value) {
+    let a = td(&v["a"]);
+    let key = format!("NaT +/- duration|a={}", v["a"]);
+    let r = catch(|| {
+        for u in UNITS {
+            let ok = with_unit!(u, U => { (DateTime::<U>::nat() + a).is_nat() && (DateTime::<U>::nat() - a).is_nat() });
+            if !ok {
+                return Err(format!("NaT date-time ({u}) +/- the duration is not NaT"));
+            }
+        }
+        if !(Time::nat() + a).is_nat() || !(Time::nat() - a).is_nat() {
+            return Err("NaT time of day +/- the duration is not NaT".into());
+        }
+        Ok(())
+    });
+    judge(rep, "NaT", "NaT|any duration", &key, "NaT", r, v);
 }
 
 fn trunc(rep: &mut Report, v: &Value) {
